@@ -401,11 +401,17 @@ var nrx1 = [4]uint16{0xff11, 0xff16, 0xff1b, 0xff20}
 var nrx2 = [4]uint16{0xff12, 0xff17, 0xff1a, 0xff21}
 var nrx4 = [4]uint16{0xff14, 0xff19, 0xff1e, 0xff23}
 
+// dacOn returns an envelope/DAC register value with the DAC on. The status bit and the length
+// counter have nothing to do with the envelope, so the values rotate through loud, quiet,
+// fading-out (volume reaches 0 long before the length expires) and fading-in settings.
+var envSeq int
+
 func dacOn(ch int) uint8 {
 	if ch == 2 {
 		return 0x80
 	}
-	return 0xf0
+	envSeq++
+	return []uint8{0xf0, 0x11, 0x19, 0x87, 0x08, 0x21, 0xf7, 0x12}[envSeq%8]
 }
 
 func run(c *rig.Ctx) {
